@@ -154,6 +154,40 @@ class Cases:
                 out.append(("fault-" + kind, root, gen.set_field(b, off, w, nv), {"off": off, "w": w, "old": z, "new": nv}))
         return out
 
+    # G2'': a size-prefixed region that is longer than its contents: k bytes inserted at its end, its size field and
+    # every enclosing size field raised by k (all size fields stay consistent with each other and with the length)
+    def padded(self, base, per=2):
+        label, root, b, info = base
+        out = []
+        is_msg = root == "C" or root.startswith("R:")
+        sizes = [f for f in info.get("faults", []) if f[0] == "size"]
+
+        def region(f):
+            kind, off, w, pn, z = f
+            if is_msg and off == 2 and w == 4 and z == len(b):
+                return 0, z
+            return off + w, off + w + z
+        cand = list(sizes)
+        self.rng.shuffle(cand)
+        for f in cand[:per]:
+            s0, e0 = region(f)
+            if e0 > len(b):
+                continue
+            k = self.rng.choice([1, 2, 3])
+            pad = bytes(self.rng.randrange(256) for _ in range(k))
+            nb = bytearray(b[:e0] + pad + b[e0:])
+            for g in sizes:
+                s1, e1 = region(g)
+                if g is f or (s1 <= f[1] and e1 >= e0 and g[1] < f[1]):
+                    kind, off, w, pn, z = g
+                    if z + k >= (1 << (8 * w)):
+                        nb = None
+                        break
+                    nb[off:off + w] = (z + k).to_bytes(w, "big")
+            if nb is not None:
+                out.append(("padded-region", root, bytes(nb), {"off": f[1], "w": f[2], "old": f[4], "new": f[4] + k, "pad": pad.hex()}))
+        return out
+
     # G2': value faults
     def value_faults(self, base, per=3):
         label, root, b, info = base
